@@ -8,27 +8,27 @@ TECH = "contract-based deductive verification: weakest-precondition style VCs ge
 
 claims = {
  "C05": dict(
-   text="Proof, for all field values and all lengths, that each packet builder returns exactly the byte sequence of an independent MQTT 3.1.1 specification encoder (ghost spec functions written from the standard): remaining-length codec, length-prefixed fields, PUBLISH, the four acknowledgement packets; obligations are discharged per function against callee contracts.",
-   note="Not yet under contract: CONNECT/SUBSCRIBE/UNSUBSCRIBE Pack, PUBLISH Parse, ValidateMessage ordering, readPacket decoding (listed in DESIGN.md). Trusted: SSA->SMT translation, solvers, append/make allocation semantics, caller obligations at the API boundary (topic <= 65535 bytes, body <= 268435455 bytes, QoS <= 2), input slices do not alias.",
+   text="Proof, for all field values and all lengths, that each packet builder returns exactly the byte sequence of an independent MQTT 3.1.1 specification encoder (ghost spec functions written from the standard): remaining-length codec, length-prefixed fields, CONNECT (all flag combinations), PUBLISH, SUBSCRIBE, UNSUBSCRIBE, the four acknowledgement packets, PINGREQ/DISCONNECT; the decoder side (readPacket, unpackString/unpackUint16, PUBLISH and acknowledgement Parse) returns the fields of the bytes it was given; ValidateMessage rejects before anything is written; obligations are discharged per function against callee contracts.",
+   note="Trusted: SSA->SMT translation, solvers, append/make allocation semantics, UTF-8 validity via string([]rune(s))==s, caller obligations at the API boundary (topic/filter/client id/user/password <= 65535 bytes, body <= 268435455 bytes, QoS <= 2), input slices do not alias. Integers are mathematical with an overflow obligation at every signed operation.",
    ref="DESIGN.md section 4.C05"),
  "C06": dict(
-   text="Proof of panic-freedom (index, slice bounds, nil, explicit panic) of the acknowledgement/CONNACK/PINGRESP parsers for every flag byte and every body, plus: every malformed class named in the property returns a non-nil error.",
-   note="Not yet under contract: readPacket, PUBLISH Parse / unpackString, serve loop, reader goroutine. Trusted as for C05.",
+   text="Proof of panic-freedom (index, slice bounds, make, nil, explicit panic) of readPacket, unpackString/unpackUint16, every Parse and the serve loop body for every byte string the transport can deliver; one packet allocates at most its declared remaining length, which is bounded by 268435455; every malformed class named in the property returns a non-nil error; the reader goroutine stores that error and reports Closed before closing Done().",
+   note="Two defects found and fixed (D1 SUBACK shorter than 2 bytes, D2 unbounded length field). Trusted: io.ReadFull/io.Reader contract, user handler code returns.",
    ref="DESIGN.md section 4.C06"),
  "C15": dict(
    text="Proof that newID never returns 0 and returns the low 16 bits of the value produced by its single atomic increment, for every counter value (bit-vector semantics, wrap-around included), plus the window lemma: counter values less than 65536 apart have distinct low halves.",
    note="Trusted: atomic.AddUint32 is atomic and returns the new value (distinct calls see distinct values). Not yet covered: the atomic-only access discipline for idLast and the single newID call per request in subscribe/unsubscribe.",
    ref="DESIGN.md section 4.C15"),
  "C20": dict(
-   text="Proof that (*Message).clone returns a freshly allocated message with equal fields and a payload array that is disjoint from the original's, for all messages.",
-   note="Not yet under contract: the call sites in ServeMux.Serve / ServeAsync.Serve (one clone per handler).",
+   text="Proof that (*Message).clone returns a freshly allocated message with equal fields and a payload array disjoint from the original's, for all messages; ServeMux.Serve hands every matching handler the result of its own clone call (one per handler, never the caller's message); ServeAsync.Serve clones before starting the goroutine and passes the clone.",
+   note="Trusted: handlers receive only what Serve passes them. A nil payload is cloned to an empty non-nil slice (equal content).",
    ref="DESIGN.md section 4.C20"),
 }
 
 claims.update({
  "C02": dict(
    text="Proof of the sender-side QoS 2 stage mechanism the exactly-once argument rests on: every error returned before PUBREC carries the PUBLISH-stage retry closure over the same message, every result after PUBREC is nil or carries the PUBREL-stage closure over the same message, the PUBREL stage never packs or writes a PUBLISH and writes at most the PUBREL packet with the message's id, success only after a receive on the channel registered under that id.",
-   note="Not yet under contract: RetryClient.Retry re-queue discipline (exact re-queue of continuation + not-yet-attempted entries). The broker-side receiver rules (discard duplicate id, release on PUBREL) are assumed; composing the per-function contracts into 'delivered exactly once' is a paper lemma (DESIGN.md 4.C02). Closure invariants (captured retry variables hold the stage closures over the same message) are checked at the direct call site and assumed for calls through the retry queue.",
+   note="The broker-side receiver rules (discard duplicate id, release on PUBREL) are assumed; composing the per-function contracts into 'delivered exactly once' is a paper lemma (DESIGN.md 4.C02). RetryClient.Retry's exact re-queue is verified under C01/C03 (defect D3 found there and fixed). Closure invariants (captured retry variables hold the stage closures over the same message) are checked at the direct call site and assumed for calls through the retry queue.",
    ref="DESIGN.md section 4.C02"),
  "C04": dict(
    text="Proof of the per-packet transition of the serve loop for every packet kind, every flag/body and every content of the QoS 2 buffer: exactly which handler calls and writes happen in an iteration (QoS0: at most one hand-over, no write; QoS1: hand-over then PUBACK with the message id; QoS2: PUBREC, no hand-over, message stored; PUBREL of a stored id: hand-over of the stored message, then PUBCOMP, entry removed; PUBREL of an unknown id and every acknowledgement kind: nothing) with whole-map postconditions on the buffer.",
@@ -36,38 +36,38 @@ claims.update({
    ref="DESIGN.md section 4.C04"),
  "C07": dict(
    text="Proof of the three guarantees G1-G3: requesters (publish QoS1/2, PUBREL stage, subscribe, unsubscribe) register a fresh waiter channel under the request's own packet id before writing and return success only after a receive on that very channel; the serve loop sends an acknowledgement only to the channel looked up under (kind,id), non-blocking, and the five signaller lookups return exactly the registered channel and remove exactly that key (whole-map postcondition); SUBACK count mismatch yields ErrInvalidSubAck and closes the transport, otherwise granted QoS is copied back per filter in request order.",
-   note="The cross-goroutine composition (a channel is reachable only through its map entry until serve removes it) is a rely/guarantee lemma in DESIGN.md 4.C07; id uniqueness is imported from C15. Channel invariants (waiter channels carry non-nil packets and are never closed) are assumed at receives and are obligations at sends/closes. Not yet under contract: Ping, Connect.",
+   note="The cross-goroutine composition (a channel is reachable only through its map entry until serve removes it) is a rely/guarantee lemma in DESIGN.md 4.C07; id uniqueness is imported from C15. Channel invariants (waiter channels carry non-nil packets and are never closed) are assumed at receives and are obligations at sends/closes. Ping and Connect waiters are under contract too.",
    ref="DESIGN.md section 4.C07"),
  "C11": dict(
-   text="Proof of wait-set contracts for publish (both QoS 2 stages), subscribe and unsubscribe: the single blocking select of each call waits on the client's connClosed channel, on Done() of the call's own context and on its own waiter; there is no bare blocking send/receive; the cancel branch returns an error whose cause is that context's Err(), the closed branch ErrClosedTransport.",
-   note="Restricted claim: 'returns promptly' is liveness and is not decided (needs Transport.Write/Close and callbacks to return). Not yet under contract: Ping, Connect, Disconnect, reconnect client Connect/Disconnect, reader goroutine exit sequence.",
+   text="Proof of wait-set contracts for Connect, Ping, publish (both QoS 2 stages), subscribe and unsubscribe: the single blocking select of each call (no default arm) waits on the client's connClosed channel, on Done() of the call's own context and on its own waiter; there is no bare blocking send/receive; the cancel branch returns an error whose cause is that context's Err(), the closed branch ErrClosedTransport; the reader goroutine closes connClosed on every exit path; RetryClient.Disconnect does not block; reconnectClient.Disconnect waits only on the loop's done channel or its context.",
+   note="Restricted claim: 'returns promptly' is liveness and is not decided (needs Transport.Write/Close and callbacks to return).",
    ref="DESIGN.md section 4.C11"),
  "C12": dict(
    text="Proof that publishImpl keeps a caller-supplied id and otherwise assigns one newID result, sets Dup to its dup argument, leaves topic/QoS/retain/payload untouched and writes exactly specPublish(message); BaseClient.Publish passes dup=false; the PUBLISH-stage retry closure re-enters publishImpl with the same message object and dup=true; QoS 0 errors never carry a retry handle; after PUBREC no PUBLISH is packed or written, only PUBREL with the same id.",
-   note="Not yet under contract: the deferred copy made by RetryClient.publish. Trusted as for C05.",
+   note="The deferred copy made by RetryClient.publish is under contract (C01). Trusted as for C05.",
    ref="DESIGN.md section 4.C12"),
  "C14": dict(
-   text="Proof that newTopicFilter accepts exactly the filters valid by a first-order definition of MQTT 4.7.1 over the levels strings.Split returns, and that Match returns exactly the first-order level-wise definition ('+' one level, '#' parent and descendants, literal otherwise), for all strings and all depths (quantified loop invariants).",
-   note="Trusted: strings.Split is a deterministic function returning at least one part; strings.Contains(s, one byte) iff some index holds it. Not yet under contract: ServeMux.Handle/Serve dispatch.",
+   text="Proof that newTopicFilter accepts exactly the filters valid by a first-order definition of MQTT 4.7.1 over the levels strings.Split returns, and that Match returns exactly the first-order level-wise definition ('+' one level, '#' parent and descendants, literal otherwise), for all strings and all depths (quantified loop invariants); ServeMux.Handle registers exactly when the filter is valid, at the end, keeping earlier entries in order; ServeMux.Serve visits every entry in registration order and calls exactly the handlers whose filter matches the message topic.",
+   note="Trusted: strings.Split is a deterministic function returning at least one part; strings.Contains(s, one byte) iff some index holds it. The ServeMux representation invariant (every stored filter is valid) is established by Handle's validation but its preservation across append is not mechanised: it is a precondition of Serve.",
    ref="DESIGN.md section 4.C14"),
  "C19": dict(
-   text="Proof of the wrappers: nil and io.EOF pass through, otherwise a fresh *Error with Err == cause (and for wrapErrorWithRetry a fresh *errorWithRetry embedding it whose retry function is the one given); every interrupted QoS>=1 publish, subscribe, unsubscribe returns an error implementing ErrorWithRetry whose handle is the closure re-issuing that same request (same message object / same filter slices) on the client it is given; documented sentinel causes (ErrClosedTransport, ctx.Err(), ErrNotConnected, ErrInvalidSubAck).",
-   note="Not yet under contract: (*Error).Is chain walk (soundness/completeness), RequestTimeoutError. Assumption A-W: Transport.Write never returns io.EOF.",
+   text="Proof of the wrappers: nil and io.EOF pass through, otherwise a fresh *Error with Err == cause (and for wrapErrorWithRetry a fresh *errorWithRetry embedding it whose retry function is the one given); (*Error).Unwrap returns the cause; (*Error).Is: itself, nil target, direct cause, no cause; (*requestContext).Err returns a fresh RequestTimeoutError wrapping the context's error; every interrupted QoS>=1 publish, subscribe, unsubscribe returns an error implementing ErrorWithRetry whose handle is the closure re-issuing that same request (same message object / same filter slices) on the client it is given; documented sentinel causes (ErrClosedTransport, ctx.Err(), ErrNotConnected, ErrInvalidSubAck).",
+   note="(*Error).Is beyond the first link of the chain (reflect fallback, arbitrary Unwrap chains) is not specified. Assumption A-W: Transport.Write never returns io.EOF; error values on a chain have comparable dynamic types.",
    ref="DESIGN.md section 4.C19"),
 })
 
 claims.update({
  "C01": dict(
    text="Proof of the queue mechanism contracts behind 'nothing accepted is lost': pushTask appends exactly one task (whole-sequence postcondition) unless stopped; Publish/Subscribe/Unsubscribe push the task closure over the caller's arguments; RetryClient.publish/subscribe/unsubscribe either transmit (queue empty) or append a deferred closure behind the queue; a failed QoS>0 request appends its retry handle and marks the connection for closing; every interrupted base-client request returns a retry error whose handle re-issues the same request; Retry re-queues exactly continuation + not-yet-attempted entries (exact sequence equality).",
-   note="Liveness ('eventually acknowledged'), lost-wakeup freedom of chTask and the cross-goroutine composition (invariant I1, DESIGN.md 4.C01) are not decided. Not yet under contract: the task loop (SetClient$1), Resubscribe, the reconnect loop. Closure invariants are checked at direct calls and assumed for entries invoked from the queue (fntype retryFn).",
+   note="Liveness ('eventually acknowledged'), lost-wakeup freedom of chTask and the cross-goroutine composition (invariant I1, DESIGN.md 4.C01) are not decided. The task loop, Resubscribe, Retry and the reconnect loop are under contract. Closure invariants are checked at direct calls and assumed for entries invoked from the queue (fntype retryFn).",
    ref="DESIGN.md section 4.C01"),
  "C03": dict(
    text="Proof that every queue transformer preserves order: append-only with exact prefix equality, direct transmission only when the retry queue is empty, deferred requests appended behind the queue, Retry invokes old[0], old[1], ... in index order and re-queues continuation followed by the untouched tail, no goroutine is started by a task closure.",
-   note="Per-connection wire order as a whole-history statement is a paper lemma (I2, DESIGN.md 4.C03). Not yet under contract: task loop FIFO pop, reconnect ordering of Resubscribe before Retry.",
+   note="Per-connection wire order as a whole-history statement is a paper lemma (I2, DESIGN.md 4.C03). Task-loop FIFO pop and the reconnect ordering Resubscribe-before-Retry are under contract.",
    ref="DESIGN.md section 4.C03"),
  "C08": dict(
    text="Proof for the bookkeeping functions: subscriptions.applyTo appends exactly its argument; unsubscriptions.applyTo is panic-free, never grows the list, preserves duplicate-freedom and (on a duplicate-free list) removes every listed filter; subscribe/unsubscribe closures apply the bookkeeping exactly once, with the request's own arguments, before the request is sent. One recorded finding: subscriptions.applyTo does not preserve duplicate-freedom (D7).",
-   note="Known finding D7 is reported as KNOWN-FINDING. Not yet under contract: Resubscribe (D8 ordering against deferred unsubscribes), the resubscribe condition in the reconnect loop. Convergence as a whole-history statement is a paper lemma.",
+   note="Known findings D7 (duplicate entries) and D8 (deferred unsubscribe overtaken by Resubscribe) are reported as KNOWN-FINDING; D6 was fixed. Resubscribe and the resubscribe condition of the reconnect loop are under contract. Convergence as a whole-history statement is a paper lemma.",
    ref="DESIGN.md section 4.C08"),
  "C16": dict(
    text="Proof of the connection state machine pieces: connStateUpdate (Disconnected absorbing, callback exactly when the state changed, with the new state and Err()), SetErrorOnce (first error wins), Connect reports Active exactly once and only on an accepting CONNACK, the reader goroutine's exit sequence serve -> Close -> store error unless Disconnected -> Closed -> close(Done), Disconnect sets Disconnected before writing DISCONNECT, Done() returns connClosed which only the reader goroutine closes.",
@@ -75,7 +75,7 @@ claims.update({
    ref="DESIGN.md section 4.C16"),
  "C18": dict(
    text="Proof that every request issued by a task closure (first transmissions and, after the fix, retransmissions) uses a context produced by requestContext from the task context, that a failing request is reported through onError, queued with its retry handle and marks the connection for closing (newRetryByError), and that requestContext wraps WithTimeout(ctx, ResponseTimeout) when a timeout is configured.",
-   note="Not yet under contract: the task loop closing the client when newRetryByError is set, (*requestContext).Err returning RequestTimeoutError. Real time is not modelled.",
+   note="The task loop closing the client when newRetryByError is set and (*requestContext).Err are under contract. Defect D9 (retransmissions had no timeout) was found here and fixed. Real time is not modelled.",
    ref="DESIGN.md section 4.C18"),
 })
 
